@@ -258,6 +258,30 @@ def forbidden_vernacular():
     return hits
 
 
+def ensure_tables():
+    """Regenerate coq/gen/Tables.v from /repo's working tree (translator output cached per source
+    hash).  Returns (info dict or None, error text or None)."""
+    import importlib
+    sys.path.insert(0, os.path.join(VERIF, "translate"))
+    libdir, err = lib_build("asan")
+    if err:
+        return None, err
+    cache = os.path.join(os.path.dirname(libdir), "Tables.v")
+    info_cache = os.path.join(os.path.dirname(libdir), "Tables.json")
+    dst = os.path.join(COQ, "gen", "Tables.v")
+    with flock(os.path.join(BUILD, "tables.lock")):
+        if not (os.path.exists(cache) and os.path.exists(info_cache)):
+            cxx2coq = importlib.import_module("cxx2coq")
+            info = cxx2coq.generate(libdir, cache + ".tmp")
+            os.rename(cache + ".tmp", cache)
+            json.dump(info, open(info_cache, "w"), default=str)
+        text = open(cache).read()
+        if not os.path.exists(dst) or open(dst).read() != text:
+            with flock(os.path.join(BUILD, "coq.lock")):
+                open(dst, "w").write(text)
+        return json.load(open(info_cache)), None
+
+
 def coq_make(targets=(), timeout=1800):
     """(Re)build the Coq development: full .vo build, never -vos. Returns (ok, output)."""
     with flock(os.path.join(BUILD, "coq.lock")):
@@ -283,7 +307,7 @@ def check_property_file(pid, extra_files=()):
     if not os.path.exists(f):
         res["output"] = "missing " + f
         return res
-    ok, out = coq_make(["Properties_%s.vo" % pid] if False else [])
+    ok, out = coq_make(["Properties_%s.vo" % pid])
     # make builds dependencies; now force the property file itself to be re-checked verbosely
     vo = f[:-2] + ".vo"
     if os.path.exists(vo):
@@ -308,6 +332,9 @@ def check_property_file(pid, extra_files=()):
 
 def model_build():
     """Extract the models to OCaml and build the driver. Returns path of executable."""
+    _info, terr = ensure_tables()
+    if terr:
+        raise MachineryError("library does not compile, cannot regenerate tables:\n" + terr[-3000:])
     ok, out = coq_make(["Extract.vo"])
     exe = os.path.join(VERIF, "ocaml", "_build", "model")
     with flock(os.path.join(BUILD, "ocaml.lock")):
